@@ -216,8 +216,14 @@ def plain_case(draw):
     n1, n2 = draw(U.stack_sizes())
     kind = draw(st.sampled_from(['grid', 'float', 'smallint', 'pos', 'few']))
     length = ref.n_pairs(n)
-    return dict(method=method, n_cond=n, kind=kind,
-                v1=draw(U.vectors(n1, length, kind)), v2=draw(U.vectors(n2, length, kind)),
+    v1, v2 = draw(U.vectors(n1, length, kind)), draw(U.vectors(n2, length, kind))
+    if method == 'corr' and draw(st.integers(0, 3)) == 0:
+        # dissimilarities on a large common baseline (2^17, exactly representable): Pearson's r is
+        # that of the centred values
+        v1 = [[x + 131072.0 for x in v] for v in v1]
+        v2 = [[x + 131072.0 for x in v] for v in v2]
+        kind = kind + '+baseline'
+    return dict(method=method, n_cond=n, kind=kind, v1=v1, v2=v2,
                 form1=forms_for(draw, n1), form2=forms_for(draw, n2),
                 api=draw(st.sampled_from(['compare', 'direct'])), perm=draw(gen.permutation(n)))
 
@@ -246,8 +252,14 @@ def rank_case(draw):
     n1, n2 = draw(U.stack_sizes())
     kind = draw(st.sampled_from(['smallint', 'smallint', 'few', 'few', 'grid', 'float']))
     length = ref.n_pairs(n)
-    return dict(method=method, n_cond=n, kind=kind,
-                v1=draw(U.vectors(n1, length, kind)), v2=draw(U.vectors(n2, length, kind)),
+    v1, v2 = draw(U.vectors(n1, length, kind)), draw(U.vectors(n2, length, kind))
+    if method == 'corr' and draw(st.integers(0, 3)) == 0:
+        # dissimilarities on a large common baseline (2^17, exactly representable): Pearson's r is
+        # that of the centred values
+        v1 = [[x + 131072.0 for x in v] for v in v1]
+        v2 = [[x + 131072.0 for x in v] for v in v2]
+        kind = kind + '+baseline'
+    return dict(method=method, n_cond=n, kind=kind, v1=v1, v2=v2,
                 form1=forms_for(draw, n1), form2=forms_for(draw, n2),
                 api=draw(st.sampled_from(['compare', 'direct'])), perm=draw(gen.permutation(n)))
 
